@@ -271,7 +271,13 @@ def order_field(fs, base_obj, base_sp):
     if kind == "ofield":
         f = Table(fs[1]).field(fs[2])
         return f, f
-    raise ValueError(kind)
+    if kind == "pos":        # ORDER BY <column position>: a constant, wrapped, never a column name
+        from pypika.terms import ValueWrapper
+        return fs[1], ValueWrapper(fs[1])
+    if kind == "expr":       # an aliased expression
+        f = (Table(base_sp["tbl"]).field(fs[1]) + 1).as_(fs[2])
+        return f, f
+    raise ValueError(kind)        # fail closed on an unknown argument form
 
 
 # ================================================================================================
@@ -579,6 +585,14 @@ def _check_tail(case, rest):
                 return "orderby-direction", "clause %r, requested direction %r" % (cl, d)
             term = cl[: -len(has_dir) - 1] if has_dir else cl
             ident = re.sub(r"[`\"]", "", term).split(".")[-1]
+            if fs[0] == "pos":
+                if term.strip() != str(fs[1]):
+                    return "orderby-position", "clause %r is not the column position %r" % (cl, fs[1])
+                continue
+            if fs[0] == "expr":
+                if ident != fs[2] and fs[1] not in re.sub(r"[`\"]", "", term):
+                    return "orderby-term", "clause %r is neither the alias %r nor an expression over %r" % (cl, fs[2], fs[1])
+                continue
             names = {fs[1]} if fs[0] in ("str", "field") else ({fs[1], fs[2]} if fs[0] == "afield" else {fs[2]})
             if ident not in names:
                 return "orderby-term", "clause %r does not name %r" % (cl, sorted(names))
@@ -718,6 +732,9 @@ def _check_sqlite(case, outcome):
     names = [al or c for c, al in base["sel"]]
     keys = []
     for fs, d in obs:
+        if fs[0] == "pos":
+            keys.append((fs[1] - 1, d == "desc"))
+            continue
         nm = fs[2] if fs[0] == "afield" and fs[2] in names else fs[1]
         if nm not in names:
             return []
@@ -953,8 +970,12 @@ def gen_case(rng, maxlen, sqlite_stream=False):
             for _ in range(nf):
                 c, al = rng.choice([s for s in base["sel"] if s[0] in COLS])
                 r = rng.random()
-                if sqlite_stream:
+                if rng.random() < 0.2:
+                    fs.append(["pos", rng.randrange(1, arity + 1)])
+                elif sqlite_stream:
                     fs.append(["afield", c, al] if al else rng.choice([["str", c], ["field", c]]))
+                elif r < 0.12:
+                    fs.append(["expr", c, rng.choice([al or "e", "e"])])
                 elif r < 0.35:
                     fs.append(["str", al or c])
                 elif r < 0.6:
